@@ -17,6 +17,7 @@ from __future__ import annotations
 import ast
 
 from ..astx import dep_slice, attr_writes, call_name, expand, kwarg, last
+from ..cfg import CFG
 from ..index import AnchorError, enclosing_function
 from ..selftest import Twin
 from ._engine import CL, STATE, wf_modules
@@ -154,6 +155,20 @@ def run(chk) -> None:
     moved = [c for c in rest_calls if isinstance(c, ast.Call)]
     appended = any(isinstance(c, ast.Call) and isinstance(c.func, ast.Attribute) and c.func.attr in ("append", "insert", "extend") and ast.unparse(c.func.value).endswith(".queue") and "in_progress" in ast.unparse(_enclosing_loop_iter(c)) for c in ast.walk(from_s))
     chk.ob("C12.R2", "serialized in-progress entries are moved to the step's queue", appended, m=ms, node=from_s, fn=from_s, instance="normal-form:in-progress-to-queue", reason="serialized in_progress entries are dropped on deserialization")
+    # … every one of them: in each iteration of the loop over the serialized in_progress list the append is passed
+    cfs = CFG(from_s)
+    ip_loops = [n for n in cfs.nodes if n.kind == "iter" and isinstance(n.ast, (ast.For, ast.AsyncFor)) and "in_progress" in ast.unparse(n.ast.iter)]
+    for h in ip_loops:
+        apps = [x for c in ast.walk(h.ast) if isinstance(c, ast.Call) and isinstance(c.func, ast.Attribute) and c.func.attr in ("append", "insert", "extend") and ast.unparse(c.func.value).endswith(".queue")
+                for x in cfs.node_of_containing(c)]
+        body_starts = [t for lab, t in cfs.succ[h] if lab == "loop"]
+        skipped = bool(apps) and h in cfs.reach(body_starts, blocked=apps, labels_excluded=("exc", "cancel"))
+        chk.ob("C12.R2", "every serialized in-progress entry is queued again (no iteration of the restore loop skips the append)", bool(apps) and not skipped, m=ms, node=h.ast, fn=from_s,
+               instance="normal-form:every-in-progress-requeued", reason="an iteration can reach the next one without appending: that running invocation is dropped on resume")
+    PARTS = ("in_progress", "queue", "collected_waiters", "collected_events")
+    filt = [c for c in ast.walk(from_s) if isinstance(c, (ast.ListComp, ast.GeneratorExp, ast.DictComp, ast.SetComp)) and any(any(f".{p_}" in ast.unparse(g.iter) for p_ in PARTS) and g.ifs for g in c.generators)]
+    chk.ob("C12.R2", "no filter is applied to the serialized queue / in-progress / waiter / buffer entries on restore", not filt, m=ms, node=filt[0] if filt else from_s, fn=from_s, instance="normal-form:no-restore-filter",
+           reason=f"a comprehension over serialized work has an `if` clause: `{ast.unparse(filt[0])[:80] if filt else ''}`")
     for c in rest_calls:
         ev = kwarg(c, "event", 0)
         ok = ev is not None and "deserialize" in ast.unparse(ev)
@@ -188,6 +203,7 @@ def _enclosing_loop_iter(node: ast.AST) -> ast.AST:
 
 
 TWINS = [
+    Twin("running invocations equal to a queued one are dropped on restore", "packages/llama-index-workflows/src/workflows/runtime/types/internal_state.py", "            for event_str in worker_data.in_progress:\n                worker.queue.append(", "            already_queued = {attempt.event for attempt in worker_data.queue}\n            for event_str in worker_data.in_progress:\n                if event_str in already_queued:\n                    continue\n                worker.queue.append(", "C12.R2"),
     Twin("queue drops recovery counts", IS_REL, "                    last_failed_at=attempt.last_failed_at,\n                    recovery_counts=dict(attempt.recovery_counts),\n                )\n                for attempt in worker_state.queue", "                    last_failed_at=attempt.last_failed_at,\n                )\n                for attempt in worker_state.queue", "C12.R1"),
     Twin("queue attempts not restored", IS_REL, "                    attempts=attempt.attempts,\n                    first_attempt_at=attempt.first_attempt_at,\n                    last_exception=attempt.last_exception,", "                    attempts=0,\n                    first_attempt_at=attempt.first_attempt_at,\n                    last_exception=attempt.last_exception,", "C12.R1"),
     Twin("resolved event not written", IS_REL, "                    resolved_event=serializer.serialize(waiter.resolved_event)\n                    if waiter.resolved_event\n                    else None,", "                    resolved_event=None,", "C12.R1"),
